@@ -327,7 +327,13 @@ func fixGateway(r *rng.R, spec map[string]any, u *universe) {
 			mode := str(tls["mode"])
 			if mode == "" || mode == "Terminate" {
 				if len(asList(tls["certificateRefs"])) == 0 && len(asMap(tls["options"])) == 0 {
-					tls["certificateRefs"] = []any{map[string]any{"name": rng.Pick(r, u.secrets)}}
+					// "certificateRefs or options must be specified when mode is Terminate"
+					if r.Chance(40, 100) {
+						delete(tls, "certificateRefs")
+						tls["options"] = map[string]any{"example.com/opt": "v"}
+					} else {
+						tls["certificateRefs"] = []any{map[string]any{"name": rng.Pick(r, u.secrets)}}
+					}
 				}
 			}
 		}
